@@ -424,11 +424,34 @@ def one_run(seed):
                             if at.initialised and at.air_conditioners and abs(at.air_conditioners[0].current_temperature - con.temp) > 1e-6:
                                 note("C14", f"model shows {at.air_conditioners[0].current_temperature} after the refresh, console reports {con.temp}")
                     else:
-                        con.temp += 0.5
-                        for nm in net.open_unclosed():
-                            con.push(nm, con.ac_status())
-                            con.push(nm, con.zone_status())
-                        await asyncio.sleep(0.1)
+                        # the console reports a change, then repeats the same report: the model follows (C10), subscribers hear
+                        # about the change and not about the repetition (C12)
+                        calls = []
+
+                        async def listener(ident):
+                            calls.append(ident)
+                        ac = at.air_conditioners[0] if at.air_conditioners else None
+                        if ac is not None and sock.is_connected:
+                            ac.subscribe(listener)
+                            con.temp += 0.5
+                            for nm in net.open_unclosed():
+                                con.push(nm, con.ac_status())
+                                con.push(nm, con.zone_status())
+                            await asyncio.sleep(0.1 + 2 * slow * max(1, len(zones)))
+                            if sock.is_connected:
+                                if abs(ac.current_temperature - con.temp) > 1e-6 or any(abs((z.current_temperature or 0) - con.temp) > 1e-6 for z in ac.zones):
+                                    note("C10", f"console reported {con.temp}; AC shows {ac.current_temperature}, zones {[z.current_temperature for z in ac.zones]}")
+                                if not calls:
+                                    note("C12", "an AC subscriber heard nothing about a changed AC / zone report")
+                                n_calls = len(calls)
+                                for nm in net.open_unclosed():
+                                    con.push(nm, con.ac_status())
+                                    con.push(nm, con.zone_status())
+                                await asyncio.sleep(0.1 + 2 * slow * max(1, len(zones)))
+                                if len(calls) != n_calls and sock.is_connected:
+                                    note("C12", f"{len(calls) - n_calls} notification(s) for a repeated, identical report")
+                            ac.unsubscribe(listener)
+                        stats["reports"] = stats.get("reports", 0) + 1
                 if healthy:
                     # heartbeat: every 300 s from the start of monitoring, no reset of the healthy link
                     await asyncio.sleep(1000.0)
